@@ -127,6 +127,46 @@ Proof.
 Qed.
 Print Assumptions C12_binary_refused_falls_back.
 
+(* ---------- the lane function: packed lanes apply the context's g, the tail applies the functor f *)
+(* wherever g agrees with f on the elements actually present, the result is map f (premise of every
+   element-wise theorem above, made local to the input) *)
+Theorem C12_unary_lane_eq_map : forall (A : Type) (N : nat) (g f : A -> A) (d : A) (inp out0 : list A),
+  0 < N -> length out0 = length inp -> (forall x, In x inp -> g x = f x) ->
+  eval_unary_lane N g f inp out0 = Some (spec_unary f inp).
+Proof.
+  intros A N g f d inp out0 HN Hl Hg.
+  rewrite (eval_unary_lane_eq A N f g inp out0 Hg). exact (eval_unary_eq_map A N HN f d inp out0 Hl).
+Qed.
+Print Assumptions C12_unary_lane_eq_map.
+
+(* relu vectorised as MAXPS(a, 0) IS the scalar functor (x > 0 ? x : 0) for every a, -0.0 and NaN included,
+   because max returns its SECOND operand unless a > 0.  (max(0, a) is not: Example C12_lane_table.) *)
+Theorem C12_relu_x86_lane_is_scalar : forall (A : Type) (gtb : A -> A -> bool) (zero a : A),
+  relu_x86 gtb zero a = relu_scalar gtb zero a.
+Proof. reflexivity. Qed.
+Print Assumptions C12_relu_x86_lane_is_scalar.
+
+(* the special-value table the correspondence holds every context to (TNeg 0 = -0.0, TPos 0 = +0.0):
+     x86 / SIMDe (max_sd(a,b) = a > b ? a : b):  relu(-0.0) = +0.0, relu(NaN) = +0.0   (= scalar)
+                                                  relu6(-0.0) = +0.0, relu6(NaN) = 6    (scalar: -0.0, NaN)
+     vector extensions (fmax/fmin):               relu(-0.0) = -0.0 or +0.0 (zero tie), relu(NaN) = +0.0
+                                                  relu6(-0.0) = -0.0 or +0.0,           relu6(NaN) = 6
+   and what swapping max's operands would do *)
+Example C12_lane_table :
+  let z := TPos 0 in let six := TPos 6 in
+  (relu_scalar tf_gtb z (TNeg 0), relu_scalar tf_gtb z TNaN, relu6_scalar tf_gtb z six (TNeg 0), relu6_scalar tf_gtb z six TNaN)
+    = (TPos 0, TPos 0, TNeg 0, TNaN)
+  /\ (relu_x86 tf_gtb z (TNeg 0), relu_x86 tf_gtb z TNaN, relu6_x86 tf_gtb z six (TNeg 0), relu6_x86 tf_gtb z six TNaN)
+    = (TPos 0, TPos 0, TPos 0, TPos 6)
+  /\ (relu_vext tf_gtb tf_nanb true z (TNeg 0), relu_vext tf_gtb tf_nanb false z (TNeg 0), relu_vext tf_gtb tf_nanb true z TNaN)
+    = (TNeg 0, TPos 0, TPos 0)
+  /\ (relu6_vext tf_gtb tf_nanb true z six (TNeg 0), relu6_vext tf_gtb tf_nanb false z six (TNeg 0), relu6_vext tf_gtb tf_nanb true z six TNaN)
+    = (TNeg 0, TPos 0, TPos 6)
+  /\ (max_x86 tf_gtb z (TNeg 0), max_x86 tf_gtb z TNaN) = (TNeg 0, TNaN)        (* max(zero, a): NOT relu *)
+  /\ (relu_x86 tf_gtb z (TPos 3), relu_x86 tf_gtb z (TNeg 3), relu6_x86 tf_gtb z six (TPos 9), relu6_vext tf_gtb tf_nanb true z six (TPos 4))
+    = (TPos 3, TPos 0, TPos 6, TPos 4).
+Proof. repeat split; reflexivity. Qed.
+
 (* ---------- non-vacuity ---------- *)
 Example C12_nonvacuous_unary : eval_unary 4 S [1;2;3;4;5;6;7;8;9] (repeat 0 9) = Some [2;3;4;5;6;7;8;9;10].
 Proof. reflexivity. Qed.
